@@ -9,7 +9,7 @@ EXPLANATION = (
     "logger under Level::Error (2), read after pool.join(), combined with panic_count()>0 -> 2 and handed to the "
     "single process::exit; (R-ATOMIC) no write can downgrade a 2; (R-ERRSTATUS) every path of the output thread that handles an Err result raises the status to 2. (R-VERIFYFLAG) OutputVerification::Full is chosen exactly under opt.verify - no other option takes part. (R-NODIFF) the functions that produce an optional diff take no decision through a floating-point comparison (a similarity ratio is not an equality test). Decides these structural clauses; does not decide "
     "that status 0 coincides with 'every file equals its formatted form' for the diff formats beyond that (depends on `similar`)."
-    "Later rounds: (R-CHECKVERDICT) in check mode Complete only on create_diff's None, Diff only on its Some; (R-ERRSTATUS) every Err edge of the output thread raises the status to 2.")
+    "Later rounds: (R-CHECKVERDICT) in check mode Complete only on create_diff's None, Diff only on its Some; (R-ERRSTATUS) every Err edge of the output thread raises the status to 2. Rounds 17-19 (after the F24 repair): (R-ERRSTATUS) only direct EXIT_CODE stores raise the status - unconditional under is_err() of the received result or inside the arm - in the output thread and for the walker's Err items; error!() does not count, its record may be filtered out by STYLUA_LOG; (R-EXACTREAD).")
 ASSUMPTIONS = ["std/ignore/threadpool/env_logger behave as documented",
                "FS_MUTATORS in r_cli.py enumerates the std APIs that can mutate the file system",
                "rustc MIR and Instance::try_resolve are trusted"]
